@@ -5736,7 +5736,8 @@ class CodegenCtx:
             text = self._generate_buflike_index_expr(intexpr.ref, index)
             size_str = self._generate_buflike_length_expr(intexpr.ref)
             if ProgramData.do(ProgramFlag.UNSAFE_STRING_INDEXING):
-                return text
+                # (int): the element has the string's character type; used as an index itself it would trip -Wchar-subscripts
+                return f"((int){text})"
             # strings allocated on demand read as empty (all indices out of range) while they are unallocated
             null_check = f" && state->c.{intexpr.ref.name}" if self._is_dynamic(intexpr.ref) and self._needs_on_demand_alloc(intexpr.ref) else ""
             return f"((({index}) >= 0 && ({index}) < {size_str}{null_check}) ? {text} : 0)"
